@@ -23,8 +23,20 @@ Qs == <<
   <<SIn("c", "signal-A", 3), Lamp("k", 1, 0), SProp("k", "enable", Bin("<", Ref("c"), Num(2)))>>,
   <<SIn("c", "signal-A", 3), SLet("Signal", "s", CondE(Bin(">", Ref("c"), Num(0)), Num(1))), SLet("Signal", "v", Bin(">", Ref("c"), Num(0)))>>
 >>
+\* pairs whose entities are FAR apart (relay poles needed) and lie on neighbouring rows: each program is two chests and a lamp
+\* 30 tiles away that takes its enable from one chest and a colour component from the other (two producers into one sink)
+Chest(n, x, y) == SPlace(n, "steel-chest", Num(x), Num(y), <<>>)
+FarProg(pre, row, d) == <<Chest(pre \o "a", 0, row), Chest(pre \o "b", 0, row + 2), Lamp(pre \o "l", d, row),
+                          SProp(pre \o "l", "enable", Bin(">", Sel(EOut(pre \o "a"), "iron-plate"), Num(5))),
+                          SProp(pre \o "l", "r", Sel(EOut(pre \o "b"), "copper-plate"))>>
+FarCins(pre) == <<[ent |-> pre \o "a", item |-> "iron-plate"], [ent |-> pre \o "b", item |-> "copper-plate"]>>
+FarRec(m, alone, side, d) == [grp |-> side, pi |-> 100 + d, qj |-> 0, stmts |-> m, src |-> Render(m), stmts2 |-> alone, src2 |-> Render(alone),
+                              dom |-> <<0, 1>>, cins |-> FarCins("p") \o FarCins("q")]
+\* a handful of interleavings (first / alternating / last) is enough here: the statements are the same kind
+FarMerges(pp, qq) == {pp \o qq, qq \o pp, <<pp[1], qq[1], pp[2], qq[2], pp[3], qq[3], pp[4], qq[4], pp[5], qq[5]>>, <<qq[1], qq[2], pp[1], pp[2], pp[3], qq[3], qq[4], pp[4], pp[5], qq[5]>>}
+FarAll == UNION {UNION {{FarRec(m, FarProg("p", 0, d), "P", d), FarRec(m, FarProg("q", 1, d), "Q", d)} : m \in FarMerges(FarProg("p", 0, d), FarProg("q", 1, d))} : d \in {14, 30}}
 Rec(m, alone, side, i, j) == [grp |-> side, pi |-> i, qj |-> j, stmts |-> m, src |-> Render(m), stmts2 |-> alone, src2 |-> Render(alone), dom |-> <<-3, 0, 2, 3, 4>>]
 All == UNION {UNION {{Rec(m, Ps[i], "P", i, j), Rec(m, Qs[j], "Q", i, j)} : m \in Merges(Ps[i], Qs[j])} : i \in DOMAIN Ps, j \in DOMAIN Qs}
-ASSUME PrintT(<<"NPROGS", Cardinality(All)>>)
-ASSUME JsonSerialize(IOEnv.GEN_OUT, SetToSeq(All))
+ASSUME PrintT(<<"NPROGS", Cardinality(All), Cardinality(FarAll)>>)
+ASSUME JsonSerialize(IOEnv.GEN_OUT, SetToSeq(All) \o SetToSeq(FarAll))
 =============================================================================
